@@ -49,15 +49,16 @@ type LDAPConfig struct {
 }
 
 func (c *URLBackendConfig) UnmarshalYAML(unmarshal func(interface{}) error) error {
-	type Aux URLBackendConfig
-	aux := &struct {
-		URLStr string `yaml:"url"`
-		*Aux
-	}{
-		Aux: (*Aux)(c),
-	}
+	// Note: yaml.v3 does not inline embedded structs unless told to, so
+	// the fields are listed explicitly (the url needs custom parsing).
+	aux := struct {
+		URLStr   string `yaml:"url"`
+		CertFile string `yaml:"cert_file"`
+		KeyFile  string `yaml:"key_file"`
+		CaFile   string `yaml:"ca_file"`
+	}{}
 
-	if err := unmarshal(aux); err != nil {
+	if err := unmarshal(&aux); err != nil {
 		return err
 	}
 	u, err := url.Parse(aux.URLStr)
@@ -65,6 +66,9 @@ func (c *URLBackendConfig) UnmarshalYAML(unmarshal func(interface{}) error) erro
 		return err
 	}
 	c.BaseURL = u
+	c.CertFile = aux.CertFile
+	c.KeyFile = aux.KeyFile
+	c.CaFile = aux.CaFile
 	return nil
 }
 
